@@ -363,6 +363,21 @@ pub fn iterate(src: Src, ro: Ro, text: &[u8], mode: char, cap: usize) -> Result<
     })
 }
 
+/// value_iter / datum_iter over a stream given as events (bytes, Interrupted results, read
+/// failures that happen once): the caller carries on after every error.
+pub fn iterate_events(ro: Ro, evs: Vec<Ev>, mode: char, cap: usize) -> Result<Vec<String>, String> {
+    guard(|| {
+        let mut p = Parser::from_reader_custom(EvReader::new(evs, 1 << 30), ro.options());
+        let mut out = vec![];
+        if mode == 'd' {
+            for it in p.datum_iter().take(cap) { out.push(dres_obs(&it)); }
+        } else {
+            for it in p.value_iter().take(cap) { out.push(vres_obs(&it)); }
+        }
+        out
+    })
+}
+
 /// A call history on one parser: v next_value, d next_datum, V expect_value,
 /// D expect_datum, E expect_end.
 pub fn history(src: Src, ro: Ro, text: &[u8], calls: &str) -> Result<Vec<String>, String> {
